@@ -167,6 +167,7 @@ package paymentsdb
 //@   ensures result0 ==> result1 == nil && m.State.RemainingAmt != 0 && m.Status != StatusSucceeded && ret(Registrable) == nil
 //@   ensures result1 == nil && m.State.RemainingAmt != 0 && m.Status != StatusSucceeded ==> (result0 <==> ret(Registrable) == nil)
 //@   ensures m.State.RemainingAmt == 0 ==> !result0
+//@   ensures m.State.RemainingAmt != 0 && m.Status == StatusSucceeded ==> result1 != nil && !result0
 //@
 //@ func (m *MPPayment) Terminated
 //@   props C16
